@@ -529,7 +529,7 @@ pub fn run(ctx: &Ctx) {
         if o.nontrivial {
             ctx.class("history:nontrivial");
             ctx.nontrivial(hash_of(&history_json(h).to_string()));
-            if hash_of(&history_json(h).to_string()) % 151 == 0 {
+            if (ctx.samples_len() < 2 || hash_of(&history_json(h).to_string()) % 151 == 0) {
                 ctx.sample(4, || history_json(h));
             }
         }
@@ -552,9 +552,13 @@ pub fn replay(ctx: &Ctx, _sub: &str, case: &Value) {
 
 /// Run handle_layer scripts (restores ignored) against a given context without a model — used by the scripted buildpack (C20).
 pub fn apply_ops(bc: &BuildContext<HB>, ops: &[Op], side: &Path) -> Result<(), String> {
+    apply_ops_named(bc, ops, side, &NAMES)
+}
+
+pub fn apply_ops_named(bc: &BuildContext<HB>, ops: &[Op], side: &Path, names: &[&str]) -> Result<(), String> {
     for op in ops {
         if let Op::Handle { name, m, script } = op {
-            let ln: LayerName = NAMES[(*name % NAMES.len() as u8) as usize].parse().unwrap();
+            let ln: LayerName = names[(*name as usize) % names.len()].parse().unwrap();
             let log = Rc::new(RefCell::new(vec![]));
             let r = match m {
                 MType::Generic => run_handle::<GenericMetadata>(bc, &ln, script, side, log),
@@ -577,4 +581,24 @@ pub fn history_strategy_for_bp() -> impl Strategy<Value = Vec<Op>> {
 
 pub fn history_from_json(v: &Value) -> Vec<Op> {
     v.as_array().unwrap().iter().map(op_from_json).collect()
+}
+
+/// one handle_layer call whose callbacks never return Err
+pub fn errorless_handle_strategy(nnames: u8) -> impl Strategy<Value = Op> {
+    (0..nnames, mtype_strategy(), script_strategy()).prop_map(|(name, m, mut script)| {
+        if script.strategy == Strat::Err {
+            script.strategy = Strat::Update;
+        }
+        if script.migrate == Mig::Err {
+            script.migrate = Mig::Recreate;
+        }
+        let fallback = ResScript { metadata: MetaVal::V1("fallback".into()), env: None, execd: vec![], sboms: vec![], plain: vec![] };
+        if script.create.is_none() {
+            script.create = Some(fallback.clone());
+        }
+        if script.update.is_none() {
+            script.update = Some(fallback);
+        }
+        Op::Handle { name, m, script }
+    })
 }
